@@ -183,7 +183,7 @@ REGISTRY = {
         trusted=["zlib.decompressobj / compressobj streaming contracts (DESIGN 4.4)", "underlying blocking file object: read(n) returns 0<k<=n bytes or b'' at EOF",
                  "io.BufferedIOBase.readinto/readline are implemented on top of read() (CPython)"],
         assumptions=["seek targets are >= 0 (domain of the property)", "fp.write does not raise"],
-        undecided_clauses=["readinto / readline are inherited from io.BufferedIOBase (external); covered only by the bounded native comparison"],
+        undecided_clauses=["readline is inherited from io.BufferedIOBase (external): covered only by the bounded native comparison; readinto has a delegation contract (BinaryZlibFile.readinto)"],
     ),
     "C14": dict(
         packs=["c13", "mem", "c19"],
@@ -194,7 +194,7 @@ REGISTRY = {
         trusted=["pickle._Unpickler.load on a strict prefix of a valid stream raises (it can only return at STOP)",
                  "zlib / file-object contracts as in C13"],
         assumptions=["bz2 / lzma / gzip module readers are externals: their termination is only exercised by the bounded native check"],
-        undecided_clauses=["'a damaged cache entry makes Memory recompute' is the except-Exception path of MemorizedFunc._cached_call, decided in the store pack (C05)"],
+        undecided_clauses=["'a damaged cache entry makes Memory recompute' is the except-Exception path of MemorizedFunc._cached_call: its contract (no exception escapes whatever the load raises, exactly one recomputation) is part of this check (pack mem); call_and_shelve on a damaged entry is finding K36"],
     ),
     "C17": dict(
         packs=["c17", "exe"],
